@@ -310,6 +310,35 @@ func runC14(c *Ctx) {
 		}
 		L.Check(ok && n > 0, "R-C14-TICK", "Cache.processItems#ticker", "ticker arm calls storedItems.Cleanup(c.cachePolicy, onEvict) with the applier's onEvict", "the ticker arm does not call storedItems.Cleanup(c.cachePolicy, onEvict) exactly once", sel.Pos())
 	})
+	c.Group("R-C14-TICK", "cleanupTicker#stoppers", func() {
+		// the sweep's driver lives as long as the cache is open: cleanupTicker is stopped (or replaced) only
+		// by Close. The applier goroutine is stopped and restarted by every Clear and shares this one ticker,
+		// so stopping it anywhere else ends expiry processing for good while writes keep being accepted.
+		var who []string
+		var pos token.Pos
+		for _, fn := range P.SrcFuncs {
+			if fn.Pkg != P.Pkgs["ristretto"] {
+				continue
+			}
+			tb := newTB(fn)
+			for _, ci := range allCalls(fn) {
+				n := calleeName(ci.Common())
+				if (n == "time.Ticker.Stop" || n == "time.Ticker.Reset") && strings.Contains(tb.T(ci.Common().Args[0]).String(), "fld[cleanupTicker]") {
+					if fname(fn) != "Cache.Close" || n == "time.Ticker.Reset" {
+						who = append(who, n+" in "+fname(fn))
+						pos = ci.Pos()
+					}
+				}
+			}
+			for _, st := range fieldStoresIn(fn, "Cache", "cleanupTicker") {
+				if fa, ok := st.Addr.(*ssa.FieldAddr); ok && !baseIsFresh(fa.X) {
+					who = append(who, "re-assigned in "+fname(fn))
+					pos = st.Pos()
+				}
+			}
+		}
+		L.Check(len(who) == 0, "R-C14-TICK", "cleanupTicker#stoppers", "the sweep ticker is stopped only by Close and never replaced", "the sweep ticker is stopped/reset outside Close: "+strings.Join(who, "; ")+" - after that no TTL sweep ever runs again although the cache stays open", pos)
+	})
 	c.Group("R-C14-TICK", "NewCache#ticker", func() {
 		fn := P.Fn("ristretto", "", "NewCache")
 		tb := newTB(fn)
